@@ -313,7 +313,13 @@ impl<'a> SeqRun<'a> {
                         self.run(body);
                     }
                 }
-                other => self.one(other),
+                other => {
+                    self.one(other);
+                    // single-threaded: a call that came back is progress of the workload,
+                    // whatever it returned (a long run of Empty / None results is not a
+                    // livelock; only a call that never returns is)
+                    crate::exec::bounded_tick();
+                }
             }
         }
     }
